@@ -148,6 +148,12 @@ def axisRot (a : V3 K) (c s : K) : M3 K :=
 /-- `perpendicular_vector` in 2d before its normalisation: `(-v₁, v₀)`. -/
 def perp2 (v : V2 K) : V2 K := ⟨-v.y, v.x⟩
 
+/-- `v / np.linalg.norm(v)` with the square root as a parameter: the model is executed with
+an approximate rational square root in the driver and reasoned about for any `sqrt` with
+`sqrt(s)² = s` at the squared norm `s` in question. -/
+def V2.normalize [Div K] (sqrt : K → K) (v : V2 K) : V2 K := V2.smul (1 / sqrt v.normSq) v
+def V3.normalize [Div K] (sqrt : K → K) (v : V3 K) : V3 K := V3.smul (1 / sqrt v.normSq) v
+
 /-- `rotation_matrix_from_to(u, v)` in 3d for unit vectors in general position (the
 "usual case" branch): Rodrigues around `n = u×v/‖u×v‖` by the angle with `cos = ⟨u,v⟩`,
 `sin = ‖u×v‖` (the sign factor `sign(⟨n×u, v⟩)` is `+1` there).  With `w = u×v` this is
@@ -256,6 +262,8 @@ def deriv : Det2 K → P1 K → V2 K
 /-- `detector.surface_normal(param)` before its normalisation:
 `-perpendicular_vector(deriv)`, `perpendicular_vector(v) ∝ (-v₁, v₀)`. -/
 def normalRaw (d : Det2 K) (p : P1 K) : V2 K := V2.neg (perp2 (d.deriv p))
+/-- `detector.surface_normal(param)` -/
+def normal [Div K] (sqrt : K → K) (d : Det2 K) (p : P1 K) : V2 K := V2.normalize sqrt (d.normalRaw p)
 end Det2
 
 namespace Det3
@@ -292,6 +300,8 @@ def deriv1 : Det3 K → P2 K → V3 K
 
 /-- `detector.surface_normal(param)` before its normalisation: `deriv0 × deriv1`. -/
 def normalRaw (d : Det3 K) (p : P2 K) : V3 K := V3.cross (d.deriv0 p) (d.deriv1 p)
+/-- `detector.surface_normal(param)` -/
+def normal [Div K] (sqrt : K → K) (d : Det3 K) (p : P2 K) : V3 K := V3.normalize sqrt (d.normalRaw p)
 end Det3
 
 /-! ## geometries
@@ -323,6 +333,9 @@ def detPoint (g : Par2 K) (R : M2 K) (p : P1 K) : V2 K :=
   V2.add (g.refpoint R) (R.mulVec (g.det.surface p))
 /-- `ParallelBeamGeometry.det_to_src` before the normalisation hidden in `surface_normal` -/
 def detToSrcRaw (g : Par2 K) (R : M2 K) (p : P1 K) : V2 K := R.mulVec (g.det.normalRaw p)
+/-- `ParallelBeamGeometry.det_to_src`: `R · surface_normal(dparam)` -/
+def detToSrc [Div K] (sqrt : K → K) (g : Par2 K) (R : M2 K) (p : P1 K) : V2 K :=
+  R.mulVec (g.det.normal sqrt p)
 /-- `det_axis(angle)` -/
 def detAxis (g : Par2 K) (R : M2 K) : V2 K := R.mulVec g.det.axis
 end Par2
@@ -332,8 +345,16 @@ def refpoint (g : Par3 K) (R : M3 K) : V3 K := V3.add g.t (R.mulVec (V3.sub g.po
 def detPoint (g : Par3 K) (R : M3 K) (p : P2 K) : V3 K :=
   V3.add (g.refpoint R) (R.mulVec (g.det.surface p))
 def detToSrcRaw (g : Par3 K) (R : M3 K) (p : P2 K) : V3 K := R.mulVec (g.det.normalRaw p)
+def detToSrc [Div K] (sqrt : K → K) (g : Par3 K) (R : M3 K) (p : P2 K) : V3 K :=
+  R.mulVec (g.det.normal sqrt p)
 def detAxis0 (g : Par3 K) (R : M3 K) : V3 K := R.mulVec g.det.a0
 def detAxis1 (g : Par3 K) (R : M3 K) : V3 K := R.mulVec g.det.a1
+/-- detector coordinates at which the point `x` is seen (components of `x - det_refpoint`
+along the rotated detector axes; orthonormal axes) -/
+def detCoord0 (g : Par3 K) (R : M3 K) (x : V3 K) : K :=
+  V3.dot (V3.sub x (g.refpoint R)) (g.detAxis0 R)
+def detCoord1 (g : Par3 K) (R : M3 K) (x : V3 K) : K :=
+  V3.dot (V3.sub x (g.refpoint R)) (g.detAxis1 R)
 end Par3
 
 /-- `FanBeamGeometry`: `d = self.src_to_det_init` (normalised), radii, translation. -/
@@ -362,6 +383,9 @@ def detPoint (g : Fan K) (R : M2 K) (dsh : V2 K) (p : P1 K) : V2 K :=
 /-- `DivergentBeamGeometry.det_to_src(normalized=False)` -/
 def detToSrc (g : Fan K) (R : M2 K) (ssh dsh : V2 K) (p : P1 K) : V2 K :=
   V2.sub (g.srcPos R ssh) (g.detPoint R dsh p)
+/-- `DivergentBeamGeometry.det_to_src(normalized=True)` -/
+def detToSrcN [Div K] (sqrt : K → K) (g : Fan K) (R : M2 K) (ssh dsh : V2 K) (p : P1 K) : V2 K :=
+  V2.normalize sqrt (g.detToSrc R ssh dsh p)
 def detAxis (g : Fan K) (R : M2 K) : V2 K := R.mulVec g.det.axis
 end Fan
 
@@ -398,6 +422,15 @@ def detPoint (g : Cone K) (R : M3 K) (turns : K) (dsh : V3 K) (p : P2 K) : V3 K 
   V3.add (g.refpoint R turns dsh) (R.mulVec (g.det.surface p))
 def detToSrc (g : Cone K) (R : M3 K) (turns : K) (ssh dsh : V3 K) (p : P2 K) : V3 K :=
   V3.sub (g.srcPos R turns ssh) (g.detPoint R turns dsh p)
+/-- `DivergentBeamGeometry.det_to_src(normalized=True)` -/
+def detToSrcN [Div K] (sqrt : K → K) (g : Cone K) (R : M3 K) (turns : K) (ssh dsh : V3 K)
+    (p : P2 K) : V3 K :=
+  V3.normalize sqrt (g.detToSrc R turns ssh dsh p)
+/-- `ConeBeamGeometry.__init__` raises `ValueError` when the (normalised) `src_to_det_init`
+is parallel to the axis up to rounding, `‖d × axis‖ ≤ 1e-10·‖axis‖` (the tangent
+`cross(src_to_det_init, axis)` cannot be normalised); `tol2 = (1e-10)²`. -/
+def ctorRejects [LE K] [DecidableLE K] (tol2 : K) (d axis : V3 K) : Bool :=
+  decide ((V3.cross d axis).normSq ≤ tol2 * axis.normSq)
 def detAxis0 (g : Cone K) (R : M3 K) : V3 K := R.mulVec g.det.a0
 def detAxis1 (g : Cone K) (R : M3 K) : V3 K := R.mulVec g.det.a1
 end Cone
@@ -416,31 +449,34 @@ structure PosState (V : Type) where
   pos : V
   posArg : Option V
   t : V
+  /-- `self.check_bounds` (passed on by `__getitem__`) -/
+  cb : Bool := true
   deriving Repr
 
 /-- `Parallel2dGeometry.__init__(det_pos_init=p, translation=t)`:
 `det_pos_init = det_pos_init + translation`. -/
-def par2Ctor (p t : V2 K) : PosState (V2 K) :=
-  { pos := V2.add p t, posArg := some p, t := t }
+def par2Ctor (p t : V2 K) (cb : Bool := true) : PosState (V2 K) :=
+  { pos := V2.add p t, posArg := some p, t := t, cb := cb }
 
 /-- `Parallel2dGeometry.__getitem__`: calls the constructor with
 `det_pos_init=self.det_pos_init - self.translation, translation=self.translation`.
 Returns (receiver after the call, new geometry). -/
 def par2Getitem (g : PosState (V2 K)) : PosState (V2 K) × PosState (V2 K) :=
-  (g, par2Ctor (V2.sub g.pos g.t) g.t)
+  (g, par2Ctor (V2.sub g.pos g.t) g.t g.cb)
 
 /-- `Parallel3dAxisGeometry.__init__(det_pos_init=arg, translation=t)`; `dflt` is the
 position derived from the axis when `det_pos_init` is not given.  The translation is added
 out of place, so `_det_pos_init_arg` keeps the argument whatever kind of object it was. -/
-def par3Ctor (dflt : V3 K) (arg : Option (V3 K)) (t : V3 K) : PosState (V3 K) :=
+def par3Ctor (dflt : V3 K) (arg : Option (V3 K)) (t : V3 K) (cb : Bool := true) :
+    PosState (V3 K) :=
   match arg with
-  | none => { pos := V3.add dflt t, posArg := none, t := t }
-  | some p => { pos := V3.add p t, posArg := some p, t := t }
+  | none => { pos := V3.add dflt t, posArg := none, t := t, cb := cb }
+  | some p => { pos := V3.add p t, posArg := some p, t := t, cb := cb }
 
 /-- `Parallel3dAxisGeometry.__getitem__`: passes `det_pos_init=self._det_pos_init_arg,
 translation=self.translation`. Returns (receiver after the call, new geometry). -/
 def par3Getitem (dflt : V3 K) (g : PosState (V3 K)) : PosState (V3 K) × PosState (V3 K) :=
-  (g, par3Ctor dflt g.posArg g.t)
+  (g, par3Ctor dflt g.posArg g.t g.cb)
 
 /-- `frommatrix`: the default initial vectors are multiplied with the left block of
 `init_matrix`, the last column (if present) is the translation. -/
@@ -509,6 +545,12 @@ def Par2.detCoord (g : Par2 K) (R : M2 K) (x : V2 K) : K :=
 /-- `cone_beam_geometry` (3d): half of `h = 2·sin(arctan(zmax/dist))·(rs + rd)` before it is
 rounded up to a multiple of the pixel size; `hyp = √(dist² + zmax²)`, `dist = rs - rho`. -/
 def coneHalfHeightRaw [Div K] (zmax hyp rs rd : K) : K := zmax / hyp * (rs + rd)
+
+/-- `helical_geometry`: half of `h = 2·h_axis·(rs + rd)/rs`,
+`h_axis = pitch/(2π)·(1 + (rho/rs)²)·(n_pi·π/2 - arctan(-rho/rs))`;
+`pt = pitch/(2π)`, `ang = n_pi·π/2 + arctan(rho/rs)` are sent by the harness. -/
+def helicalHalfHeight [Div K] (pt rho rs rd ang : K) : K :=
+  pt * (1 + (rho / rs) * (rho / rs)) * ang * (rs + rd) / rs
 
 /-! ## shapes of vectorised evaluation -/
 
